@@ -55,6 +55,8 @@ def main(ctx):
         jobs.append({"kind": "mix", "rot": rot, "tier": ctx.tier})
     for cfg in CONFIGS:
         jobs.append({"kind": "after-malformed", "cfg": cfg, "tier": ctx.tier})
+    for cls in G.CLASS_NAMES:
+        jobs.append({"kind": "reuse", "cls": cls, "tier": ctx.tier})
     # largest shards first
     jobs.sort(key=lambda j: -(j.get("hi", 0) - j.get("lo", 0)))
     ctx.pmap(ENV, "props.c03:job", jobs, chunksize=1)
@@ -80,6 +82,8 @@ def main(ctx):
     ctx.require("cache_fresh_compared")
     ctx.require("after_malformed_cases")
     ctx.require("malformed_refused")
+    ctx.require("reuse_cases")
+    ctx.require("reuse_fields_updated")
 
 
 # ---------------------------------------------------------------------------
@@ -216,7 +220,7 @@ class _Run:
         if pend:
             self.badwires.add(repr(pend[0][5]))
 
-    def _emit(self, clause, cls, field, cfg, desc, wire, batch=None):
+    def _emit(self, clause, cls, field, cfg, desc, wire, batch=None, extra=None):
         sig = "C03|%s|%s|%s|%s" % (clause, cls, field, cfg or "-")
         self.sigs[sig] = self.sigs.get(sig, 0) + 1
         self.count("violations_total")
@@ -226,6 +230,8 @@ class _Run:
         arg = {"cls": cls, "wire": G.to_jsonable(wire), "cfg": cfg}
         if batch is not None:
             arg["batch"] = [G.to_jsonable(w) for w in batch]
+        if extra:
+            arg.update(extra)
         self.viol.append({"sig": sig, "desc": desc[:1200],
                           "replay": {"env": ENV, "func": "props.c03:replay", "arg": arg}})
 
@@ -544,6 +550,25 @@ def job(a):
             for cls, label, w in pool:
                 run.one(cls, "after-malformed:" + label, w, [cfg])
         samples.append({"kind": "after-malformed", "cfg": cfg, "malformed_inputs": len(menu)})
+    elif a["kind"] == "reuse":
+        # one message OBJECT used again: serialized, updated through its public attribute setters,
+        # un-cached with the documented Message.uncache(), serialized again (same or another
+        # serializer): the second serialization carries the CURRENT field values
+        cls = a["cls"]
+        K = _klass(cls)
+        settable = [n for n in dir(K) if isinstance(getattr(K, n, None), property)
+                    and getattr(K, n).fset is not None]
+        msgs = _gen(cls, "quick")
+        if a["tier"] != "thorough":
+            msgs = msgs[::max(1, len(msgs) // 12)]
+        names = [c for c in CONFIGS if not c.endswith(".batched")]
+        k = 0
+        for (l1, w1), (l2, w2) in zip(msgs, msgs[1:] + msgs[:1]):
+            for first in names:
+                second = names[(names.index(first) + 1 + k) % len(names)]
+                k += 1
+                _reuse_case(run, cls, w1, w2, first, second)
+        samples.append({"kind": "reuse", "class": cls, "settable_fields": len(settable)})
     else:
         # one message of every class, all cyclic windows of every batch size
         rot = a["rot"]
@@ -566,10 +591,57 @@ def job(a):
     return {"evals": run.evals, "viol": run.viol, "stats": run.stats, "samples": samples[:1]}
 
 
+def _reuse_case(run, cls, w1, w2, first, second):
+    G = run.G
+    K = _klass(cls)
+    settable = [n for n in dir(K) if isinstance(getattr(K, n, None), property)
+                and getattr(K, n).fset is not None]
+    try:
+        m1, m2 = K.parse(_copy(w1)), K.parse(_copy(w2))
+        run.sers[first].serialize(m1)
+    except Exception:
+        return
+    nset = 0
+    for n in settable:
+        try:
+            v1, v2 = getattr(m1, n), getattr(m2, n)
+            if v1 != v2:
+                setattr(m1, n, _copy(v2) if isinstance(v2, (list, dict)) else v2)
+                nset += 1
+        except Exception:
+            pass
+    if not nset:
+        return
+    m1.uncache()
+    run.evals += 1
+    run.count("reuse_cases")
+    run.count("reuse_fields_updated", nset)
+    try:
+        now = m1.marshal()
+        data, is_binary = run.sers[second].serialize(m1)
+        back = run.sers[second].unserialize(data, is_binary)[0]
+        got = back.marshal()
+    except Exception:
+        # a combination of field values that cannot be marshalled is not judged here
+        run.count("reuse_unmarshallable")
+        return
+    d = G.first_diff(G.canonical(got), G.canonical(now))
+    if d is not None:
+        run._emit("stale-after-uncache", cls, G.field_of(cls, d), second,
+                  "serialized with %s, %d fields updated through setters, uncache(), serialized with %s: "
+                  "the wire form %s differs at %s from the message's current state %s" % (
+                      first, nset, second, G._short(got), d, G._short(now)), w1,
+                  extra={"reuse": {"w2": G.to_jsonable(w2), "first": first, "second": second}})
+
+
 def replay(a):
     run = _Run("quick")
     G = run.G
     w = G.from_jsonable(a["wire"])
+    if a.get("reuse"):
+        r = a["reuse"]
+        _reuse_case(run, a["cls"], w, G.from_jsonable(r["w2"]), r["first"], r["second"])
+        return {"wire": G._short(w), "viol": run.viol, "signatures": sorted(run.sigs)}
     cfgs = [a["cfg"]] if a.get("cfg") else CONFIGS
     if a.get("batch"):
         ws = [G.from_jsonable(x) for x in a["batch"]]
